@@ -17,7 +17,8 @@ _stats = {"cells": 0, "outcomes": {}}
 
 BOUNDARY = [101, 199, 200, 204, 205, 299, 300, 301, 304, 305, 307, 399, 400, 999]
 CLS = [None, b"", b"0", b"7", b"18446744073709551615", b"18446744073709551616", b"abc", b"+5", b"5 5", b"\xff7", b"007"]
-TES = [None, b"chunked", b"Chunked", b"gzip, chunked", b"chunked, gzip", b"gzip", b"identity", b"chunked\x80"]
+# (the last three: codings that merely start with, end with or contain the word -- not chunked; seeded change C06-20 compared a prefix)
+TES = [None, b"chunked", b"Chunked", b"gzip, chunked", b"chunked, gzip", b"gzip", b"identity", b"chunked\x80", b"chunked-v2", b"xchunked", b"gzip, ChunkedX"]
 CLS_SMALL = [None, b"", b"0", b"7", b"abc", b"+5"]
 TES_SMALL = [None, b"chunked", b"gzip", b"gzip ,  CHUNKED"]
 
